@@ -123,6 +123,8 @@ type Disk struct {
 	closed bool
 	seq    uint64
 
+	// OnUnlock, if set, is called when the path lock is about to be released.
+	OnUnlock func()
 	// LogData controls whether write payloads are copied into the log.
 	LogData bool
 	// YieldIO enables scheduler yields before WriteAt and Sync.
@@ -258,6 +260,9 @@ func (d *Disk) Unlock() error {
 	}
 	if !d.locked {
 		return errors.New("simdisk: not locked")
+	}
+	if d.OnUnlock != nil {
+		d.OnUnlock()
 	}
 	d.locked = false
 	return nil
